@@ -252,6 +252,16 @@ func (fr *Frame) applyContract(spec *FuncSpec, fn *ssa.Function, sig *types.Sign
 	if e.ownerOn() {
 		e.ownerAfterCall(st, st.pc, nx0)
 	}
+	if spec.IOEffect {
+		var fl []string
+		for g := range e.g.specs.Frameless {
+			fl = append(fl, g)
+		}
+		sort.Strings(fl)
+		for _, g := range fl {
+			e.havocComp(st, "GG_"+g, specSort(e.g.specs.GhostGl[g]))
+		}
+	}
 	res := fr.havocResults(sig, st, spec.Key)
 	bindResults(cf, res)
 	for _, c := range spec.Ensures {
@@ -857,7 +867,39 @@ func verifyFunction(g *G, fn *ssa.Function, spec *FuncSpec) *FuncResult {
 	if ro != nil {
 		ro.Expect = "sat"
 	}
-	if spec != nil {
+	if spec != nil && spec.PerReturn {
+		// one obligation per ensures clause and return site, each in the state of that return
+		texts := map[string]int{}
+		for _, r := range fr.rets {
+			txt := "end of function"
+			if r.pos.IsValid() {
+				txt = fr.lineText(r.pos)
+			}
+			texts[txt]++
+			site := txt
+			if texts[txt] > 1 {
+				site = fmt.Sprintf("%s#%d", txt, texts[txt])
+			}
+			fr.specVars = map[string]*Val{}
+			bindResults(fr, r.vals)
+			for _, c := range append(append([]*Clause{}, fr.extraEnsures...), spec.Ensures...) {
+				t, err := fr.evalClause(c, r.st, fr.entry, nil, nil)
+				if err != nil {
+					fr.bindErr(c, err)
+					continue
+				}
+				e.oblige("post", c.Label+"@"+site, r.st.pc, t, c.Props, r.pos, "")
+			}
+		}
+		fr.specVars = map[string]*Val{}
+		bindResults(fr, res)
+		// callers and later obligations may use the contract at the merged exit
+		for _, c := range append(append([]*Clause{}, fr.extraEnsures...), spec.Ensures...) {
+			if t, err := fr.evalClause(c, out, fr.entry, nil, nil); err == nil {
+				e.assume(out.pc, t)
+			}
+		}
+	} else if spec != nil {
 		for _, c := range append(append([]*Clause{}, fr.extraEnsures...), spec.Ensures...) {
 			t, err := fr.evalClause(c, out, fr.entry, nil, nil)
 			if err != nil {
@@ -869,6 +911,8 @@ func verifyFunction(g *G, fn *ssa.Function, spec *FuncSpec) *FuncResult {
 				o.Hints = fr.retHints()
 			}
 		}
+	}
+	if spec != nil {
 		fr.frameCheck(spec, out)
 		for _, a := range spec.AtAsserts {
 			if fr.atHits[a] == 0 {
@@ -917,6 +961,17 @@ func (fr *Frame) frameCheck(spec *FuncSpec, out *State) {
 	nx1 := e.next(out)
 	for _, k := range names {
 		if k == "$next" || strings.HasPrefix(k, "Seen_") || strings.HasPrefix(k, "C_") || strings.HasPrefix(k, "Bx_") {
+			continue
+		}
+		if strings.HasPrefix(k, "GG_") && e.g.specs.Frameless[k[3:]] {
+			// the abstract file system may only change inside functions declared io_effect
+			if !spec.IOEffect {
+				fin := e.get(out, k, e.comps[k])
+				ent := e.get(fr.entry, k, e.comps[k])
+				if fin != ent {
+					e.oblige("frame", k, out.pc, sEq(fin, ent), nil, fr.fn.Pos(), "function is not declared io_effect but changes the file system")
+				}
+			}
 			continue
 		}
 		srt := e.comps[k]
